@@ -30,7 +30,7 @@ from mc.letters import MIN_AREA, generic_points, rotation_matrix, rs
 from mc.observe import buffers, obs_diff, obs_key, observe
 
 MAX_OBJS = 3
-TARGETS = ("rot", "refl", "shear", "self")
+TARGETS = ("rot", "refl", "shear", "self", "int")
 BAD_KINDS = ("n+1", "n-1", "dims", "samesize")
 
 
@@ -128,7 +128,9 @@ class C08(Check):
         return (3, 5, 6) if d == 2 else (4, 5, 6)
 
     def _inits(self):
-        return ("rot", "refl", "shear") if self.tier == "quick" else ("rot", "refl", "shear", "self")
+        # "int": an integer-dtype target (PointCloud keeps int64 points; anything that updates fit buffers in place
+        # would keep the dtype of the first target)
+        return ("rot", "refl", "shear", "int") if self.tier == "quick" else ("rot", "refl", "shear", "self", "int")
 
     def roots(self):
         out = []
@@ -176,6 +178,7 @@ class C08(Check):
             r = rs(seed, "c08-tgt", tn, n, d)
             shift = (r.rand(d) - 0.5) * 2.0
             targets[tn] = (s - c).dot(maps[tn].T) + c + shift + 0.15 * r.randn(n, d)
+        targets["int"] = np.round(2.0 * targets["rot"]).astype(np.int64)
         rb = rs(seed, "c08-bad", n, d)
         od = 3 if d == 2 else 2
         bad = {
@@ -271,7 +274,7 @@ class C08(Check):
             return {"root": root, "kind": "G", "objs": [], "model": []}
         src = self._make_source(root, pl)
         kernel = self._make_kernel(root, src)
-        pool = {tn: PointCloud(pl["targets"][tn].copy()) for tn in ("rot", "refl", "shear")}
+        pool = {tn: PointCloud(pl["targets"][tn].copy()) for tn in ("rot", "refl", "shear", "int")}
         pool["self"] = src
         bad = {k: PointCloud(v.copy()) for k, v in pl["bad"].items()}
         al = self._construct(root, src, pool[root[5]], kernel)
